@@ -80,7 +80,7 @@ PROPS = {
              "(15 entry points x {live,dead,never-issued descriptor} x NULL/boundary masks x 16 variants = 5232 calls), valid traffic interleaved",
              (20000, 40), (200000, 600), [ISAL_ASSUME],
              expect_probes=["badcall.refused.invalid-argument", "badcall.refused.dead-descriptor", "badcall.refused.unknown-descriptor", "create.refused", "cycle.done.liberasurecode_rs_vand", "cycle.done.flat_xor_hd", "cycle.done.null"],
-             cells_total={"call": 6384}),
+             cells_total={"call": 9648}),
     "C14": P("exploration",
              "seeded histories over 6 slots (length 10-60, thorough to 200): creates of every available backend incl. null, failed creates (unsupported shape, unavailable backend, injected init failure), destroys in any order, "
              "destroys/uses of dead and never-issued descriptors against every entry point, data-path operations and canaries on live instances, descriptor counter preset just below INT_MAX with live descriptors above the wrap point; "
